@@ -2,7 +2,7 @@
    *_mismatches    : model output <> implementation output (correspondence)
    *_spec_failures : the property text applied to the IMPLEMENTATION's outputs by an independent
                      FlexFEC-03 receiver (Spec/FlexfecSpec.v); never looks at the encoder model. *)
-From IV Require Export Base.Word Base.Codes Model.Flexfec Model.Flexfec2 Spec.FlexfecSpec.
+From IV Require Export Base.Word Base.Codes Model.Flexfec Model.Flexfec2 Model.FlexfecFail Spec.FlexfecSpec.
 From Coq Require Import ZifyBool.
 
 (* observed repair packet: (plain, pt, sn, ts, ssrc, payload); plain = 1 iff version 2, no padding,
@@ -236,4 +236,46 @@ Fixpoint icpt_spec (nm nf pt fssrc : Z) (mssrc : list Z) (last : option Z) (pend
 Definition icpt_spec_failures (cases : list icpt_case) : list (Z * Z) :=
   find_codes (fun c : icpt_case =>
     let '((nm, nf, pt, fssrc, mssrc), ws, fls, outs) := c in
+    icpt_spec nm nf pt fssrc mssrc None [] [] ws fls outs) cases 0.
+
+(* ---- interceptor over a next writer that fails (round 4; Model/FlexfecFail.v) ---- *)
+(* an interceptor case in which "the packets that reached the next writer" are the calls MADE to the next
+   writer during each Write, failed ones included; then per Write the calls scheduled to fail (positions
+   within the Write: 0 = the media packet, 1.. = the repair packets); then per Write what it returned:
+   (1 iff err != nil, the failed calls whose error errors.Is finds in the returned error, ascending) *)
+Definition icptf_case := (icpt_case * list (list Z) * list (Z * list Z))%type.
+
+Definition dw_of (l : list Z) : dwf := fun j => existsb (Z.eqb (Z.of_nat j)) l.
+
+Definition fres_eqb (m : res (list attempt)) (o : (Z * list (list Z)) * (Z * list Z)) : bool :=
+  match m with
+  | Panic => fst (fst o) =? 2
+  | Ok att => (fst (fst o) =? 1)
+              && list_eqb (list_eqb Z.eqb) (map (fun a : attempt => out_bytes (fst a)) att) (snd (fst o))
+              && (fst (snd o) =? (if existsb (fun a : attempt => snd a) att then 1 else 0))
+              && list_eqb Z.eqb (map Z.of_nat (errs_of att)) (snd (snd o))
+  end.
+
+(* correspondence: calls made, in order and byte for byte; error nil iff no call failed; the returned error
+   wraps exactly the errors of the failed calls *)
+Definition icptf_model_ok (c : icptf_case) : bool :=
+  let '(((nm, nf, pt, fssrc, mssrc), ws, _, outs), fails, rets) := c in
+  (length fails =? length ws)%nat && (length rets =? length outs)%nat &&
+  list_eqb2 fres_eqb (if_run collect_all (new_icpt nm nf pt fssrc mssrc) (combine ws (map dw_of fails)))
+            (combine outs rets).
+
+Definition icptf_mismatches (cases : list icptf_case) : list nat :=
+  find_idx (fun c => negb (icptf_model_ok c)) cases 0.
+
+(* the oracle: the property speaks about the packets handed to the next writer.  A packet whose write
+   failed is a packet the receiver does not get - the loss the repair packets of its batch are there for -
+   so whatever the next writer answers, every Write must hand on the written packet first and unmodified
+   and, at the end of a batch, repair packets that name every packet of the batch, recover each of them
+   (failed ones included) and carry sequence numbers that increase by one over the calls made: icpt_spec
+   on the calls made, with its codes (11: a complete batch of consecutive packets got no repair packet,
+   1: some packet named by no repair packet handed on, 6: sequence-number gap, 8: media not first ...).
+   It does not look at the schedule, at the returned error or at the model. *)
+Definition icptf_spec_failures (cases : list icptf_case) : list (Z * Z) :=
+  find_codes (fun c : icptf_case =>
+    let '(((nm, nf, pt, fssrc, mssrc), ws, fls, outs), _, _) := c in
     icpt_spec nm nf pt fssrc mssrc None [] [] ws fls outs) cases 0.
